@@ -478,5 +478,24 @@ def rule_r5(ctx) -> RuleResult:
     return rr
 
 
+def rule_r6(ctx) -> RuleResult:
+    """The selection function reads need_pre_expand through the memoised get_page: a flag set by
+    set_template_pre_expand()/add_page()/analyze_templates() is only seen if those writers
+    invalidate the memo (shared with C10.R1)."""
+    from ..core.sqlfacts import SqlFacts
+    from . import c10
+
+    r = c10.rule_r1(ctx, SqlFacts(ctx.index))
+    rr = RuleResult("C13.R6", "the selection function sees flags written earlier on the same context (shared with C10.R1)", min_instances=3)
+    for f in r.findings:
+        rr.bad(Finding("C13.R6", f.file, f.function, f.construct,
+                       f.message + "; a template flagged after it was first looked up is re-emitted unexpanded under pre_expand and its hooks never run", f.line))
+    rr.cases = set(r.cases)
+    rr.obligations = r.obligations
+    rr.discharged = r.discharged
+    rr.samples = list(r.samples)
+    return rr
+
+
 def run(ctx) -> list:
-    return [rule_r1(ctx), rule_r2(ctx), rule_r3(ctx), rule_r4(ctx), rule_r5(ctx)]
+    return [rule_r1(ctx), rule_r2(ctx), rule_r3(ctx), rule_r4(ctx), rule_r5(ctx), rule_r6(ctx)]
